@@ -1,0 +1,142 @@
+//go:build verif
+
+package skchia
+
+// Workspace state-machine contracts for govc (see /verif/DESIGN.md, C09 / C11). Comment-only; build tag verif.
+//
+// wsm[m][sid]: the workspace stored under sid in WorkSpaceMap m (0 = absent): abstract view of the concurrent map.
+// Indexes: workSpaceIndex[0..3] = registered, plotting, ready, mining; workSpaceIndex[4] = all.
+
+//@ ghost wsm map[int]map[int]int
+//@ spec func sidS(id *SpaceID) string
+
+//@ func (*SpaceID).String
+//@   modifies nothing
+//@   attr pure, nilrecv-ok
+//@   ensures result == sidS(this)
+
+//@ func (*WorkSpaceMap).Get
+//@   attr trusted, pure
+//@   modifies nothing
+//@   ensures view: result1 == (wsm[m][sid] != 0) && result0 == ptr("*WorkSpace", wsm[m][sid])
+//@ func (*WorkSpaceMap).Has
+//@   attr trusted, pure
+//@   modifies nothing
+//@   ensures view: result == (wsm[m][sid] != 0)
+//@ func (*WorkSpaceMap).Set
+//@   attr trusted, pure
+//@   requires stores-a-workspace: ws != nil
+//@   modifies wsm[m]
+//@   ensures view: wsm[m][sid] == ws && (forall t string :: t != sid ==> wsm[m][t] == old(wsm[m][t]))
+//@ func (*WorkSpaceMap).Delete
+//@   attr trusted, pure
+//@   modifies wsm[m]
+//@   ensures view: wsm[m][sid] == 0 && (forall t string :: t != sid ==> wsm[m][t] == old(wsm[m][t]))
+
+// representation invariant of the keeper's indexes
+//@ spec func ixm(sk *SpaceKeeper, s int) *WorkSpaceMap = sk.workSpaceIndex[s]
+//@ spec func wfIndex(sk *SpaceKeeper) bool = len(sk.workSpaceIndex) == 5 && ixm(sk, 0) != nil && ixm(sk, 1) != nil && ixm(sk, 2) != nil && ixm(sk, 3) != nil && ixm(sk, 4) != nil && ixm(sk, 0) != ixm(sk, 1) && ixm(sk, 0) != ixm(sk, 2) && ixm(sk, 0) != ixm(sk, 3) && ixm(sk, 0) != ixm(sk, 4) && ixm(sk, 1) != ixm(sk, 2) && ixm(sk, 1) != ixm(sk, 3) && ixm(sk, 1) != ixm(sk, 4) && ixm(sk, 2) != ixm(sk, 3) && ixm(sk, 2) != ixm(sk, 4) && ixm(sk, 3) != ixm(sk, 4)
+//@ spec func inState(sk *SpaceKeeper, s int, sid string) bool = wsm[ixm(sk, s)][sid] != 0
+//@ spec func wsAt(sk *SpaceKeeper, s int, sid string) *WorkSpace = ptr("*WorkSpace", wsm[ixm(sk, s)][sid])
+// every entry of a state index is the same workspace as in the all-index, carries that state and that id
+//@ spec func stateIndexOK(sk *SpaceKeeper, s int) bool = forall sid string :: inState(sk, s, sid) ==> wsAt(sk, s, sid) == wsAt(sk, 4, sid) && wsAt(sk, s, sid).state == s && wsAt(sk, s, sid).id != nil && sidS(wsAt(sk, s, sid).id) == sid
+// every indexed workspace sits in exactly the index of its state
+//@ spec func allIndexOK(sk *SpaceKeeper) bool = forall sid string :: inState(sk, 4, sid) ==> wsAt(sk, 4, sid).state <= 3 && wsAt(sk, wsAt(sk, 4, sid).state, sid) == wsAt(sk, 4, sid) && wsAt(sk, 4, sid).id != nil && sidS(wsAt(sk, 4, sid).id) == sid
+// a plotting space is the popped item of the plotter queue
+//@ spec func plottingOK(sk *SpaceKeeper) bool = forall sid string :: inState(sk, 1, sid) ==> sk.queue != nil && sk.queue.poppedItem != nil && sk.queue.poppedItem.ws != nil && sk.queue.poppedItem.ws.id != nil
+//@ spec func listOK(l []*WorkSpace) bool = forall p int :: off(l) <= p && p < off(l) + len(l) ==> rawat(l, p) != nil && rawat(l, p).id != nil
+//@ spec func invSK(sk *SpaceKeeper) bool = wfIndex(sk) && sk.queue != nil && listOK(sk.workSpaceList) && stateIndexOK(sk, 0) && stateIndexOK(sk, 1) && stateIndexOK(sk, 2) && stateIndexOK(sk, 3) && allIndexOK(sk) && plottingOK(sk)
+
+//@ func (*plotterQueue).PoppedItem
+//@   requires lock-entry: !held[addr(pq.Mutex)]
+//@   modifies nothing
+//@   ensures result == pq.poppedItem
+//@ func (*plotterQueue).Delete
+//@   attr trusted
+//@   modifies nothing
+//@   ensures pq.poppedItem == old(pq.poppedItem)
+
+//@ spec func skUnlocked(sk *SpaceKeeper) bool = !held[addr(sk.stateLock)] && !rheld[addr(sk.stateLock)] && sk.queue != nil && !held[addr(sk.queue.Mutex)]
+//@ spec func othersUntouched(sk *SpaceKeeper, sid string) bool = forall t string :: t != sid ==> wsm[ixm(sk, 0)][t] == old(wsm[ixm(sk, 0)][t]) && wsm[ixm(sk, 1)][t] == old(wsm[ixm(sk, 1)][t]) && wsm[ixm(sk, 2)][t] == old(wsm[ixm(sk, 2)][t]) && wsm[ixm(sk, 3)][t] == old(wsm[ixm(sk, 3)][t]) && wsm[ixm(sk, 4)][t] == old(wsm[ixm(sk, 4)][t])
+//@ spec func rowUnchanged(sk *SpaceKeeper, sid string) bool = wsm[ixm(sk, 0)][sid] == old(wsm[ixm(sk, 0)][sid]) && wsm[ixm(sk, 1)][sid] == old(wsm[ixm(sk, 1)][sid]) && wsm[ixm(sk, 2)][sid] == old(wsm[ixm(sk, 2)][sid]) && wsm[ixm(sk, 3)][sid] == old(wsm[ixm(sk, 3)][sid]) && wsm[ixm(sk, 4)][sid] == old(wsm[ixm(sk, 4)][sid])
+
+//@ func (*WorkSpace).StopPlot
+//@   modifies nothing
+//@ func (*WorkSpace).Plot
+//@   modifies nothing
+//@ func (*WorkSpace).Delete
+//@   attr effect:fs.remove
+//@   modifies nothing
+//@ func (*WorkSpace).Progress
+//@   modifies nothing
+
+//@ func (*SpaceKeeper).MineWS
+//@   requires lock-entry: skUnlocked(sk)
+//@   requires inv: invSK(sk)
+//@   ensures inv: invSK(sk)
+//@   ensures ready-becomes-mining: old(inState(sk, 2, sid)) && old(wsAt(sk, 4, sid).using) ==> err == nil && inState(sk, 3, sid) && !inState(sk, 2, sid) && wsAt(sk, 3, sid) == old(wsAt(sk, 2, sid)) && wsAt(sk, 3, sid).state == 3
+//@   ensures other-spaces-untouched: forall t string :: t != sid ==> wsm[ixm(sk, 0)][t] == old(wsm[ixm(sk, 0)][t]) && wsm[ixm(sk, 1)][t] == old(wsm[ixm(sk, 1)][t]) && wsm[ixm(sk, 2)][t] == old(wsm[ixm(sk, 2)][t]) && wsm[ixm(sk, 3)][t] == old(wsm[ixm(sk, 3)][t]) && wsm[ixm(sk, 4)][t] == old(wsm[ixm(sk, 4)][t])
+//@   ensures never-unregisters: wsm[ixm(sk, 4)][sid] == old(wsm[ixm(sk, 4)][sid]) && wsm[ixm(sk, 0)][sid] == old(wsm[ixm(sk, 0)][sid]) && wsm[ixm(sk, 1)][sid] == old(wsm[ixm(sk, 1)][sid])
+
+//@ func (*SpaceKeeper).StopWS
+//@   requires lock-entry: skUnlocked(sk)
+//@   requires inv: invSK(sk)
+//@   ensures inv: invSK(sk)
+//@   ensures mining-becomes-ready: old(inState(sk, 3, sid)) && old(wsAt(sk, 4, sid).using) ==> inState(sk, 2, sid) && !inState(sk, 3, sid) && wsAt(sk, 2, sid) == old(wsAt(sk, 3, sid)) && wsAt(sk, 2, sid).state == 2
+//@   ensures plotting-asked-to-stop-not-to-mine: old(inState(sk, 1, sid)) && old(wsAt(sk, 4, sid).using) && err != ErrWorkSpaceIsNotPlotting ==> !sk.queue.poppedItem.wouldMining
+//@   ensures other-spaces-untouched: othersUntouched(sk, sid)
+//@   ensures never-unregisters: wsm[ixm(sk, 4)][sid] == old(wsm[ixm(sk, 4)][sid]) && wsm[ixm(sk, 0)][sid] == old(wsm[ixm(sk, 0)][sid]) && wsm[ixm(sk, 1)][sid] == old(wsm[ixm(sk, 1)][sid])
+//@   ensures registered-and-ready-stay: !old(inState(sk, 3, sid)) ==> rowUnchanged(sk, sid)
+
+//@ func (*SpaceKeeper).PlotWS
+//@   requires lock-entry: skUnlocked(sk)
+//@   requires inv: invSK(sk)
+//@   ensures inv: invSK(sk)
+//@   ensures no-state-change: rowUnchanged(sk, sid) && othersUntouched(sk, sid)
+
+//@ func deleteFromSlice
+//@   requires list-wf: listOK(src)
+//@   modifies nothing
+//@   ensures list-wf: listOK(result)
+
+//@ func (*SpaceKeeper).disuseWorkSpace
+//@   requires ws != nil && ws.id != nil
+//@   requires list-wf: listOK(sk.workSpaceList)
+//@   modifies ws.using, sk.workSpaceList
+//@   ensures !ws.using
+//@   ensures list-wf: listOK(sk.workSpaceList)
+
+//@ func (*SpaceKeeper).RemoveWS
+//@   requires lock-entry: skUnlocked(sk)
+//@   requires inv: invSK(sk)
+//@   ensures inv: invSK(sk)
+//@   ensures refused-while-plotting-or-mining: old(inState(sk, 4, sid)) && old(wsAt(sk, 4, sid).using) && (old(inState(sk, 1, sid)) || old(inState(sk, 3, sid))) ==> err == ErrWorkSpaceIsNotStill
+//@   ensures indexes-untouched: rowUnchanged(sk, sid) && othersUntouched(sk, sid)
+//@   attr no-effect-check
+
+//@ func (*SpaceKeeper).DeleteWS
+//@   requires lock-entry: skUnlocked(sk)
+//@   requires inv: invSK(sk)
+//@   attr effect:fs.remove
+//@   ensures inv: invSK(sk)
+//@   ensures refused-while-plotting-or-mining: old(inState(sk, 4, sid)) && old(wsAt(sk, 4, sid).using) && (old(inState(sk, 1, sid)) || old(inState(sk, 3, sid))) ==> err == ErrWorkSpaceIsNotStill && rowUnchanged(sk, sid)
+//@   assert-at call WorkSpace.Delete only-a-still-space-is-erased: old(inState(sk, 0, sid)) || old(inState(sk, 2, sid))
+//@   assert-at call WorkSpace.Delete erases-the-named-space: ws == old(wsAt(sk, 4, sid))
+//@   ensures other-spaces-untouched: othersUntouched(sk, sid)
+
+// ---- the plotter goroutine's two critical sections (lock-invariant style: the protected state is arbitrary at every
+// acquisition except for the invariant and the stated rely conditions)
+//@ type SpaceKeeper lock stateLock invariant invSK(this) havocs wsm, WorkSpace.state, WorkSpace.using, SpaceKeeper.workSpaceList, plotterQueue.poppedItem, queuedWorkSpace.wouldMining
+
+//@ func (*SpaceKeeper).spacePlotter$1
+//@   attr modular, lockinv
+//@   requires args: qws != nil && qws.ws != nil && qws.ws.id != nil && sk != nil && sk.queue != nil && wfIndex(sk)
+//@   requires lock-entry: skUnlocked(sk)
+//@   assume-at call Lock#1 single-plotter: forall t string :: !inState(sk, 1, t)
+//@   assume-at call Lock#1 popped-item-is-this-request: sk.queue.poppedItem == qws && qws.ws == ws
+//@   assume-at call Lock#1 indexed-under-its-id: inState(sk, 4, sid) ==> wsAt(sk, 4, sid) == ws
+//@   assume-at call Lock#2 plotting-space-stays-put: inState(sk, 1, sid) && wsAt(sk, 1, sid) == ws && sk.queue.poppedItem == qws && qws.ws == ws && (forall t string :: inState(sk, 1, t) ==> t == sid)
+//@   assert-at call Plot only-a-space-moved-to-plotting-is-plotted: inState(sk, 1, sid) && wsAt(sk, 1, sid) == ws && ws.state == 1
+//@   assert-at call Unlock#2 registered-becomes-plotting: inState(sk, 1, sid) && wsAt(sk, 1, sid) == ws && ws.state == 1 && !inState(sk, 0, sid)
+//@   assert-at call Unlock#1 not-registered-is-not-plotted: !inState(sk, 1, sid)
+//@   assert-at call Unlock#3 plot-end-transition: !inState(sk, 1, sid) && ((inState(sk, 0, sid) && ws.state == 0) || (inState(sk, 3, sid) && ws.state == 3 && qws.wouldMining) || (inState(sk, 2, sid) && ws.state == 2 && !qws.wouldMining))
